@@ -6,10 +6,12 @@ CONSTANTS NP = 2
   Cap = 1
   D = 0
   Skip <- MCNoSkip
+  ResOut = 65533
+  ResOther = 65531
   Thin = FALSE
 INIT Init
 NEXT Next
 VIEW viewE
 CONSTRAINT FrozenCfg
-ACTION_CONSTRAINT ExportT
+ACTION_CONSTRAINT ExportH
 CHECK_DEADLOCK FALSE
